@@ -67,6 +67,7 @@ pub fn strategy() -> impl Strategy<Value = Case> {
     )
         .prop_map(|(files, changes, partials)| {
             let mut ops = changes;
+            let _ = &files;
             for (p, extra) in partials {
                 ops.push(p);
                 if let Some(e) = extra {
@@ -133,7 +134,7 @@ pub fn spec() -> Spec<Case> {
         rule: "a change set of 2-6 AI/human hunks (insert/replace/delete/intra-line) over 1-3 files of 2-14 lines plus new, still untracked files created by agents or people, committed through 1-4 successive partial commits - by file (`git add <paths>`) and by hunk (index content composed from HEAD + a generated subset of the working-tree hunks, i.e. the state `git add -p` produces) - with optional agent/human edits, whole commits, and unrelated human-only commits of a single file (so that left-out work is carried across several commits) in between, then a final commit of the rest. Oracle: the C01 commit oracle on every commit (a line is recorded for a commit iff that commit adds it and the content-addressed model says an agent wrote it), and across the sequence no AI line is listed by the notes of two commits. non-trivial = >=1 executed partial commit in a history with AI checkpoints and >=3 commits; distinct by case hash".into(),
         cases_quick: 224,
         cases_thorough: 5000,
-        shrink_iters: 80,
+        shrink_iters: 30,
         workers: 14,
         strategy: strategy().sboxed(),
         run,
